@@ -218,19 +218,27 @@ FEEL_NAME = {"LoweCase": "lower case"}
 
 
 def replay_dispatch(variant, fn, pnames, i, rb):
+    """positional vs named FEEL invocation.  The dispatch wrappers only look at the KIND of their arguments, so besides the
+    solver's values a second witness with 'telling' contents of the same kinds is tried (still confirmed natively)."""
     fname = FEEL_NAME.get(variant) or re.sub(r"(?<!^)([A-Z])", lambda m: " " + m.group(1).lower(), variant).lower()
-    args = []
-    for d in i["args"]:
-        if not fv.replayable(d):
-            return False, "argument not expressible"
-        args.append(fv.feel_text(d))
-    e1 = "%s(%s)" % (fname, ", ".join(args))
-    e2 = "%s(%s)" % (fname, ", ".join("%s: %s" % (n, a) for n, a in zip(pnames, args)))
-    _, o1, _ = replay_call(rb, ["feel", e1])
-    _, o2, _ = replay_call(rb, ["feel", e2])
-    n1 = re.sub(r"null\(.*\)$", "null", o1)
-    n2 = re.sub(r"null\(.*\)$", "null", o2)
-    return n1 != n2, "%s -> %s ; %s -> %s" % (e1, o1[:80], e2, o2[:80])
+    cands = []
+    if all(fv.replayable(d) for d in i["args"]):
+        cands.append([fv.feel_text(d) for d in i["args"]])
+    telling = {"String": ['"1,000.21"', '","', '"."', '"x"'], "Number": ["3", "1", "2", "5"], "List": ["[1,2,9]", "[2,3]", "[4]", "[5]"],
+               "Boolean": ["true", "false", "true", "false"], "Null": ["null"] * 4, "Context": ["{a: 1}", "{b: 2}", "{c: 3}", "{d: 4}"]}
+    cands.append([telling.get(d["kind"], ["null"] * 4)[k] for k, d in enumerate(i["args"])])
+    last = ""
+    for args in cands:
+        e1 = "%s(%s)" % (fname, ", ".join(args))
+        e2 = "%s(%s)" % (fname, ", ".join("%s: %s" % (n, a) for n, a in zip(pnames, args)))
+        _, o1, _ = replay_call(rb, ["feel", e1])
+        _, o2, _ = replay_call(rb, ["feel", e2])
+        n1 = re.sub(r"null\(.*\)$", "null", o1)
+        n2 = re.sub(r"null\(.*\)$", "null", o2)
+        last = "%s -> %s ; %s -> %s" % (e1, o1[:80], e2, o2[:80])
+        if n1 != n2:
+            return True, last
+    return False, last
 
 
 KNOWN_PRED = {}
